@@ -4,8 +4,9 @@
   limb counts (list lengths) and all operand values.
 -/
 import CB.Lemmas.AddSub
+import CB.Lemmas.C04Forms
 namespace CB.P04
-open CB
+open CB CB.Cmp CB.AddSub
 
 /-- T04.1 `adc` is exact for EVERY carry-in word (no bound on the carry needed). -/
 theorem adc_exact (a b c : Nat) :
@@ -167,11 +168,111 @@ theorem wrapping_neg_if_spec {a : List Nat} (p : Bool) (ha : WF a) :
   rw [uselect_spec p ha hw hl.symm]
   cases p <;> simp [hv]
 
+
+/-! ### T04.6 boxed operands of ANY two precisions -/
+
+/-- `BoxedUint::adc`: exact at the larger precision, every carry-in. -/
+theorem boxed_adc_exact (a b : List Nat) (c : Nat) :
+    val (badc a b c).1 + B ^ (max a.length b.length) * (badc a b c).2 = val a + val b + c ∧
+    (badc a b c).1.length = max a.length b.length := badc_spec a b c
+
+/-- `BoxedUint::sbb`: exact at the larger precision, every borrow-in word. -/
+theorem boxed_sbb_exact {a b : List Nat} {bw : Nat} (ha : WF a) (hb : WF b) (hbw : bw < B) :
+    val (bsbb a b bw).1 + (val b + bw / HALF) =
+      val a + B ^ (max a.length b.length) * ((bsbb a b bw).2 / HALF) ∧
+    (bsbb a b bw).1.length = max a.length b.length := bsbb_spec ha hb hbw
+
+/-- the panicking boxed `+`: a value exactly when the true sum fits the larger precision -/
+theorem boxed_op_add_spec {a b : List Nat} (ha : WF a) (hb : WF b) :
+    (boxedOpAdd a b).isSome = decide (val a + val b < B ^ (max a.length b.length)) ∧
+    (∀ r, boxedOpAdd a b = some r → val r = val a + val b ∧ r.length = max a.length b.length) := by
+  have ⟨e, hl⟩ := badc_spec a b 0
+  have hw : WF (badc a b 0).1 := uadc_WF _ _ _
+  have hr := val_lt hw; rw [hl] at hr
+  have hp := Bpow_pos (max a.length b.length)
+  generalize B ^ (max a.length b.length) = K at *
+  unfold boxedOpAdd
+  by_cases hc : (badc a b 0).2 = 0
+  · rw [hc] at e
+    simp only [hc, if_true, Option.isSome_some, Option.some.injEq]
+    refine ⟨?_, ?_⟩
+    · have : val a + val b < K := by omega
+      simp [this]
+    · intro r hr'; subst hr'; exact ⟨by omega, hl⟩
+  · simp only [hc, if_false, Option.isSome_none]
+    refine ⟨?_, by intro r h; cases h⟩
+    have h1 : 1 ≤ (badc a b 0).2 := by omega
+    have : K * 1 ≤ K * (badc a b 0).2 := Nat.mul_le_mul_left K h1
+    have : ¬ val a + val b < K := by omega
+    simp [this]
+
+/-! ### T04.7 in-place forms iterate over the receiver's limbs only -/
+
+/-- exact UNDER the documented precondition `rhs` not wider than the receiver -/
+theorem adc_assign_exact {self rhs : List Nat} (c : Nat) (h : rhs.length ≤ self.length) :
+    val (adcAssign self rhs c).1 + B ^ self.length * (adcAssign self rhs c).2 = val self + val rhs + c ∧
+    (adcAssign self rhs c).1.length = self.length := by
+  unfold adcAssign
+  have ⟨hv, hl⟩ := rhsFor_val h
+  have e := uadc_spec self (rhsFor self rhs) c hl.symm
+  rw [hv] at e
+  exact ⟨e, uadc_length _ _ _ hl.symm⟩
+
+theorem sbb_assign_exact {self rhs : List Nat} {bw : Nat} (hs : WF self) (hr : WF rhs) (hbw : bw < B)
+    (h : rhs.length ≤ self.length) :
+    val (sbbAssign self rhs bw).1 + (val rhs + bw / HALF) =
+      val self + B ^ self.length * ((sbbAssign self rhs bw).2 / HALF) := by
+  unfold sbbAssign
+  have ⟨hv, hl⟩ := rhsFor_val h
+  have e := (usbb_spec hs (rhsFor_WF hr) hbw hl.symm).1
+  rw [hv] at e
+  exact e
+
+/- FULL STATEMENT (false of the code in the release profile, see `add_assign_wider_rhs_silent`):
+   ∀ self rhs, boxedAddAssign self rhs = some r → val r = val self + val rhs -/
+/-- `a += &b` returns the exact sum or panics, PROVIDED `b` is not wider than `a`. -/
+theorem add_assign_spec_partial {self rhs : List Nat} (H_rhs_not_wider : rhs.length ≤ self.length) :
+    ∀ r, boxedAddAssign self rhs = some r → val r = val self + val rhs ∧ r.length = self.length := by
+  intro r hr
+  have ⟨e, hl⟩ := adc_assign_exact (self := self) (rhs := rhs) 0 H_rhs_not_wider
+  unfold boxedAddAssign at hr
+  by_cases hc : (adcAssign self rhs 0).2 = 0
+  · simp only [hc, if_true, Option.some.injEq] at hr
+    subst hr; rw [hc] at e; exact ⟨by omega, hl⟩
+  · simp [hc] at hr
+
+/-- T04.7n (negative, witness): with a WIDER right-hand side the release-profile computation drops the
+    high limbs and reports no overflow: (64-bit 0) += (128-bit 2^64) gives 0. -/
+theorem add_assign_wider_rhs_silent :
+    boxedAddAssign [0] [0, 1] = some [0] ∧ val [0] ≠ val [0] + val [0, 1] := by decide
+
+/-! ### T04.8 `Checked<T>`: once none, always none -/
+
+theorem checked_sticky_add (b : Option (List Nat)) : checkedAddO none b = none := by
+  cases b <;> rfl
+theorem checked_sticky_sub (b : Option (List Nat)) : checkedSubO none b = none := by
+  cases b <;> rfl
+theorem checked_add_some_spec {a b r : List Nat} (ha : WF a) (hb : WF b) (h : a.length = b.length)
+    (hr : checkedAddO (some a) (some b) = some r) : val r = val a + val b := by
+  have ⟨hm, hv⟩ := checked_add_spec ha hb h
+  unfold checkedAddO at hr
+  by_cases hc : (checkedAdd a b).2 = WMAX
+  · simp only [hc, if_true, Option.some.injEq] at hr
+    subst hr
+    apply hv
+    rw [hm] at hc
+    by_cases hlt : val a + val b < B ^ a.length
+    · exact hlt
+    · simp [hlt, mask] at hc; exact absurd hc (by decide)
+  · simp [hc] at hr
+
 /-! non-vacuity: the hypotheses are met by concrete non-trivial operands -/
 example : WF [WMAX, WMAX] ∧ WF [1, 0] ∧ [WMAX, WMAX].length = [1, 0].length := by
   refine ⟨?_, ?_, rfl⟩ <;> intro x hx <;> simp at hx <;> rcases hx with h | h <;> (try subst h) <;> decide
 example : (uadc [WMAX, WMAX] [1, 0] 0) = ([0, 0], 1) := by decide
 example : (usbb [0, 0] [1, 0] 0) = ([WMAX, WMAX], WMAX) := by decide
 example : (carryingNeg [0, 0]) = ([0, 0], WMAX) := by decide
+example : badc [WMAX] [1, 5] 0 = ([0, 6], 0) ∧ bsbb [0] [1, 0] 0 = ([WMAX, WMAX], WMAX) := by decide
+example : boxedAddAssign [WMAX, 0] [1] = some [0, 1] := by decide
 
 end CB.P04
